@@ -224,6 +224,7 @@ impl<'a> Part<'a> {
                     }
                 }
             }
+            Err(what) if what.starts_with("harness:") => self.ctx.machinery_error(format!("{what} in case {}", serde_json::to_string(&c).unwrap())),
             Err(what) => {
                 let j = serde_json::to_string(&c).unwrap();
                 let (value_failure, what) = match what.strip_prefix("@value@") {
@@ -525,8 +526,24 @@ fn explore(ctx: &Ctx) {
 }
 
 fn replay(v: &Value) -> Result<(), String> {
-    let c: Case = serde_json::from_value(v.clone()).map_err(|e| format!("bad case: {e}"))?;
-    mc_core::catch(|| run_case(&c)).unwrap_or_else(Err).map(|_| ())
+    let c: Case = match serde_json::from_value(v.clone()) {
+        Ok(c) => c,
+        Err(e) => {
+            // never let an unreadable case pass for a reproduced violation
+            eprintln!("MACHINERY-ERROR: replay case cannot be read: {e}");
+            std::process::exit(2)
+        }
+    };
+    match mc_core::catch(|| run_case(&c)).unwrap_or_else(Err) {
+        Ok(_) => Ok(()),
+        Err(what) => {
+            if what.starts_with("harness:") {
+                eprintln!("MACHINERY-ERROR: {what}");
+                std::process::exit(2)
+            }
+            Err(what.trim_start_matches("@value@").to_string())
+        }
+    }
 }
 
 fn main() {
